@@ -22,6 +22,7 @@ FN = {"rate": "FRate", "increase": "FIncrease", "delta": "FDelta", "irate": "FIr
       "stdvar_over_time": "FStdvar", "stddev_over_time": "FStddev", "present_over_time": "FPresent",
       "quantile_over_time": "FQuantile", "deriv": "FDeriv", "predict_linear": "FPredict"}
 AGG = {"sum": "AggSum", "avg": "AggAvg", "min": "AggMin", "max": "AggMax", "count": "AggCount"}
+BOP = {"+": "OAdd", "-": "OSub", "*": "OMul", "/": "ODiv", "%": "OMod", "==": "OEq", "!=": "ONe", ">": "OGt", "<": "OLt", ">=": "OGe", "<=": "OLe"}
 
 FINDING_IDS = ["C18-empty-value-matcher-dropped", "C18-absent-label-matcher-ignored", "C18-regex-matcher-unanchored",
                "C18-rate-subsecond-range-integer-division", "C18-range-query-aggregation-over-offset",
@@ -146,8 +147,23 @@ def acase_coq(m):
                                           vec_coq(m.get("in") or []), vec_coq(m.get("out_up") or []), vec_coq(m.get("out_sv") or []))
 
 
+def cb(b):
+    return "true" if b else "false"
+
+
+def vscase_coq(m):
+    return "(%s, %s, %s, %s, %s, %s, %s)" % (BOP[m["binop"]], cb(m.get("ret_bool")), cb(m.get("swap")), coq_q(m["scalar"]),
+                                              vec_coq(m.get("in") or []), vec_coq(m.get("out_up") or []), vec_coq(m.get("out_sv") or []))
+
+
+def vvcase_coq(m):
+    g = "[" + "; ".join(coq_str(x) for x in (m.get("mlabels") or [])) + "]"
+    return "(%s, %s, %s, %s, %s, %s, %s, %s)" % (BOP[m["binop"]], cb(m.get("ret_bool")), cb(m.get("on")), g, vec_coq(m.get("in") or []),
+                                                  vec_coq(m.get("in2") or []), vec_coq(m.get("out_up") or []), vec_coq(m.get("out_sv") or []))
+
+
 HEADER = ("From Coq Require Import String.\nFrom Coq Require Import QArith ZArith List Bool NArith.\n"
-          "From OG Require Import C18.Model C18.Model2 C18.Corr.\nImport ListNotations.\nOpen Scope Q_scope.\n")
+          "From OG Require Import C18.Model C18.Model2 C18.Model3 C18.Corr.\nImport ListNotations.\nOpen Scope Q_scope.\n")
 
 
 def vec_finite(v):
@@ -246,6 +262,7 @@ def main(ck):
 
     # ---- model evaluation ------------------------------------------------------------------------------------
     rcs, acs, bcs = [], [], []     # (case index, series index, coq text, meta)
+    extra = {"vs": [], "vv": []}     # binary operator cases
     skipped_nonfinite = 0
     for ci, c in enumerate(cases):
         m = c.get("model")
@@ -261,6 +278,12 @@ def main(ck):
                     skipped_nonfinite += 1
                     continue
                 rcs.append((ci, si, rcase_coq(fn, m.get("param"), m["t"], m.get("range_ms", 0), m.get("offset_ms", 0), s)))
+        elif m["kind"] in ("vs", "vv"):
+            vecs = [m.get("in") or [], m.get("in2") or [], m.get("out_up") or [], m.get("out_sv") or []]
+            if not all(vec_finite(v) for v in vecs) or not finite(m.get("scalar", "0")):
+                skipped_nonfinite += 1    # division / modulo by zero, NaN operands: no rational value
+                continue
+            extra[m["kind"]].append((ci, 0, vscase_coq(m) if m["kind"] == "vs" else vvcase_coq(m)))
         elif m["kind"] == "absent":
             if not all(finite(p["v"]) for s in (m.get("series") or []) for p in (s.get("samples") or [])):
                 skipped_nonfinite += 1
@@ -284,10 +307,19 @@ def main(ck):
     for i in range(0, len(bcs), shard):
         files.append(("bc%d" % (i // shard), HEADER + "Definition cases : list bcase := [\n%s\n].\n"
                       "Definition M := Eval vm_compute in bmismatches cases.\nPrint M.\n" % ";\n".join(x[2] for x in bcs[i:i + shard])))
+    nb = len(files) - nr - na
+    xfiles = []     # (file index, kind, first case index)
+    for kind, typ, fn in (("vs", "vscase", "vsmismatches"), ("vv", "vvcase", "vvmismatches")):
+        for i in range(0, len(extra[kind]), shard):
+            xfiles.append((len(files), kind, i))
+            files.append(("%s%d" % (kind, i // shard), HEADER + "Definition cases : list %s := [\n%s\n].\n"
+                          "Definition M := Eval vm_compute in %s cases.\nPrint M.\n" % (typ, ";\n".join(x[2] for x in extra[kind][i:i + shard]), fn)))
     ck.log("model evaluation: %d shards" % len(files))
     res = ck.coq_eval_many(files, timeout=240) if ok else []
     ck.log("model evaluation done")
     rmis, amis, bmis = {}, {}, {}
+    xmis = {"vs": {}, "vv": {}}
+    xof = {fi: (kind, first) for fi, kind, first in xfiles}
     for idx, (rc2, o) in enumerate(res):
         mm = re.search(r"M\s*=\s*(.*?)\s*:\s*list", o, re.S)
         if rc2 != 0 or not mm:
@@ -298,8 +330,11 @@ def main(ck):
                 rmis[idx * shard + int(a)] = int(b)
             elif idx < nr + na:
                 amis[(idx - nr) * shard + int(a)] = int(b)
-            else:
+            elif idx < nr + na + nb:
                 bmis[(idx - nr - na) * shard + int(a)] = int(b)
+            else:
+                kind, first = xof[idx]
+                xmis[kind][first + int(a)] = int(b)
 
     validated = ties = variant_current = variant_repaired = 0
     model_bad = []
@@ -344,6 +379,16 @@ def main(ck):
             model_bad.append(("absent-impl-vs-server", ci, si, code))
         else:
             validated += 1
+    for kind in ("vs", "vv"):
+        for k, (ci, si, _) in enumerate(extra[kind]):
+            code = xmis[kind].get(k, 0)
+            c = cases[ci]
+            if code & 1:
+                model_bad.append(("binop-%s-spec-vs-upstream" % kind, ci, si, code))
+            elif (code & 2) and not (c.get("known") or c.get("unexplained")):
+                model_bad.append(("binop-%s-impl-vs-server" % kind, ci, si, code))
+            else:
+                validated += 1
     if model_bad and not unexplained:
         kind, ci, si, code = model_bad[0]
         c = cases[ci]
@@ -368,7 +413,8 @@ def main(ck):
     ck.cov["traces_validated_against_impl"] = validated
     ck.cov["rule"] = ("one case = (data set, expression, instant time | range start/end/step); non-trivial = upstream evaluated it without "
                       "error and returned at least one point; distinct = different (expression, timing)")
-    ck.cov["model_cases"] = {"range_or_selector_series": len(rcs), "aggregations": len(acs), "absent_over_time": len(bcs), "threshold_ties_skipped": ties,
+    ck.cov["model_cases"] = {"range_or_selector_series": len(rcs), "aggregations": len(acs), "absent_over_time": len(bcs), "vector_scalar_binops": len(extra["vs"]),
+                             "vector_vector_binops": len(extra["vv"]), "threshold_ties_skipped": ties,
                              "non_finite_skipped": skipped_nonfinite, "matched_current_only": variant_current,
                              "matched_repaired_only": variant_repaired, "model_disagreements": len(model_bad)}
     ck.cov["form_histogram"] = forms
